@@ -1,4 +1,7 @@
-//! Worker subprocess entry points (crash isolation).
-pub fn main(_args: &[String]) -> i32 {
-    3
+//! Worker subprocess entry points (crash isolation, clean baselines).
+pub fn main(args: &[String]) -> i32 {
+    match args.first().map(|s| s.as_str()) {
+        Some("c04") => super::c04::worker(&args[1..]),
+        _ => 3,
+    }
 }
